@@ -63,7 +63,10 @@ METHOD_CASES = [("simple", "5", "6"), ("eq", "== 5", "== 6"), ("gt", "> 3", "> 7
 # (passing, failing, whether the failing entry formats a value with the counting Debug impl)
 DEBUG_CASES = [("c: == 5", "c: == 6", True), ("c: > 3", "c: > 7", True), ("oc: Some(== 5)", "oc: Some(== 6)", True),
                ("oc: Some(_)", "oc: None", True), ("xs: [== 1, == 2]", "xs: [== 1, == 3]", True), ("xs: [== 1, ..]", "xs: [== 1]", True),
-               ("xs.len(): 2", "xs.len(): 3", False), ("n: 5, c: >= 5", "n: 6, c: >= 5", False)]
+               ("xs.len(): 2", "xs.len(): 3", False), ("n: 5, c: >= 5", "n: 6, c: >= 5", False),
+               ("c: |cl_x| *cl_x > 3", "c: |cl_x| *cl_x > 7", True), ("oc: Some(|cl_x| *cl_x > 3)", "oc: Some(|cl_x| *cl_x > 7)", True),
+               ("xs: [|cl_x| *cl_x > 0, ..]", "xs: [|cl_x| *cl_x > 1, ..]", True), ("c: != 6", "c: != 5", True), ("c: <= 5", "c: < 5", True),
+               ("xs[0]: == 1", "xs[0]: == 2", True), ("xs[1]: > 1", "xs[1]: > 2", True)]
 
 CLASS_TEXT = {
     "C08-fail-path-double-eval": "on the failing path of a leaf or of a composite whose own shape fails, the value expression spliced into "
